@@ -23,7 +23,7 @@ impl FaceIntegral for VoronoiFaceIntegral {
         Self {
             area: 0.,
             centroid: DVec3::ZERO,
-            normal: cell.clipping_planes[clipping_plane_idx].plane.n,
+            normal: -cell.clipping_planes[clipping_plane_idx].plane.n,
         }
     }
 
